@@ -432,7 +432,7 @@ fn server_half(ctx: &mut Ctx) {
         1 => ("[a-z]{1,4}\\.[A-Z][a-z]{0,4}", json_value(2)).prop_map(|(n, v)| Act::ReplyErr(n, v)),
     ];
     let strat = (prop::collection::vec(act, 0..=10), any::<bool>(), prop::bool::weighted(0.2), any::<bool>());
-    let cases = ctx.tier.pick(20_000, 300_000);
+    let cases = ctx.tier.pick(80_000, 300_000);
     let r = pt::check(ctx, "c05-server-random", cases, strat, |ctx, (s, more, oneway, spell)| {
         ctx.case(if script_nontrivial(s, *more) { Some(hash64(&(format!("{:?}", s), more, oneway, spell))) } else { None });
         ctx.class("server:random-script");
@@ -630,7 +630,7 @@ fn client_half(ctx: &mut Ctx) {
             cont_errors.dedup();
             ClientCase { conts, cont_errors, fin, follow }
         });
-    let cases = ctx.tier.pick(6_000, 100_000);
+    let cases = ctx.tier.pick(24_000, 100_000);
     let r = pt::check(ctx, "c05-client-random", cases, strat, |ctx, c| {
         let is_err = c.fin.get("error").map(|e| !e.is_null()).unwrap_or(false);
         let nt = is_err || c.conts.is_empty() || !c.follow.is_empty();
